@@ -380,6 +380,9 @@ def stepPlock (g : G) (i : Nat) (t : Txn) : G :=
       match refetch g t with
       | none => failPath g i { t with tracked := t.tracked.map fun tr => { tr with own := false } }
       | some t' => startLock g i t'
+    else if t.tracked.isEmpty && t.seen.isEmpty then
+      -- nothing left to commit (a second refetch replayed nothing): no node is read or written, Commit returns nil
+      finishOk (commitPoint g i t []) i t
     else setTxn g i { t with pc := .validate }
 
 /-- `areFetchedItemsIntact` + `commitUpdatedNodes` version checks (writers); the whole of
